@@ -5,6 +5,7 @@ import (
 	"fmt"
 	"net/url"
 	"strings"
+	"unicode/utf8"
 
 	"github.com/oapi-codegen/runtime"
 )
@@ -200,6 +201,79 @@ func corrCodec(ctx *Ctx, pid string) error {
 			}
 			if err := corrBindQuery(ctx, explode, required, name, sh, qwire); err != nil {
 				return err
+			}
+		}
+	}
+	// 4. deepObject (flat object of strings): MarshalDeepObject / UnmarshalDeepObject vs Model/DeepObject.lean
+	for i := 0; i < n/3; i++ {
+		r := ctx.Rng.Fork()
+		name := []string{"v", "id", "color", "f"}[r.Intn(4)]
+		nk := 1 + r.Intn(3)
+		keys, vals := []string{}, []string{}
+		kset := map[string]bool{}
+		m := map[string]interface{}{}
+		for j := 0; j < nk; j++ {
+			k := []string{"a", "b", "R", "G", "key_1", "x-y"}[r.Intn(6)]
+			if kset[k] {
+				continue
+			}
+			kset[k] = true
+			v := tameStr(r, 2)
+			if r.Chance(35) {
+				v = randBytes(r, 4)
+			}
+			if !utf8.ValidString(v) || strings.ContainsAny(v, "\x00") {
+				v = "plain"
+			}
+			keys = append(keys, k)
+			vals = append(vals, v)
+			m[k] = v
+		}
+		implFrag, ierr := runtime.StyleParamWithLocation("deepObject", true, name, runtime.ParamLocationQuery, m)
+		var mres struct {
+			Frag  string `json:"frag"`
+			Bound struct {
+				ParseErr string   `json:"parseErr"`
+				BindErr  string   `json:"bindErr"`
+				Keys     []string `json:"keys"`
+				Vals     []string `json:"vals"`
+			} `json:"bound"`
+		}
+		if err := ctx.Model(J{"fn": "deepObject", "name": hx(name), "keys": hxs(keys), "vals": hxs(vals)}, &mres); err != nil {
+			return err
+		}
+		ctx.Res.Count("corr:deepObject")
+		cs := J{"name": name, "keys": keys, "vals": vals}
+		if ierr != nil {
+			ctx.Res.Disagree("CORR deepObject: StyleParamWithLocation fails", cs, unhx(mres.Frag), ierr.Error())
+			continue
+		}
+		if unhx(mres.Frag) != implFrag {
+			ctx.Res.Disagree("CORR deepObject fragment (Model/DeepObject.frag vs MarshalDeepObject)", cs, unhx(mres.Frag), implFrag)
+			continue
+		}
+		// server side on what url.ParseQuery makes of the fragment
+		q, perr := url.ParseQuery(implFrag)
+		if (perr != nil) != (mres.Bound.ParseErr != "") {
+			ctx.Res.Disagree("CORR deepObject: ParseQuery error or not", cs, mres.Bound.ParseErr, fmt.Sprint(perr))
+			continue
+		}
+		if perr != nil {
+			continue
+		}
+		dst := map[string]string{}
+		berr := runtime.BindQueryParameter("deepObject", true, true, name, q, &dst)
+		if (berr != nil) != (mres.Bound.BindErr != "") {
+			ctx.Res.Disagree("CORR deepObject: bind error or not", cs, mres.Bound.BindErr, fmt.Sprint(berr))
+			continue
+		}
+		if berr == nil {
+			want := map[string]string{}
+			for j := range mres.Bound.Keys {
+				want[unhx(mres.Bound.Keys[j])] = unhx(mres.Bound.Vals[j])
+			}
+			if Canon(want) != Canon(dst) {
+				ctx.Res.Disagree("CORR deepObject bound members (DeepObject.bind vs UnmarshalDeepObject)", cs, want, dst)
 			}
 		}
 	}
@@ -404,8 +478,8 @@ func corrBindQuery(ctx *Ctx, explode, required bool, name, sh, wire string) erro
 		}
 	}()
 	var m struct {
-		Ok    *mval   `json:"ok"`
-		Error *string `json:"error"`
+		Ok     *mval   `json:"ok"`
+		Error  *string `json:"error"`
 		isNull bool
 	}
 	var raw map[string]interface{}
